@@ -2,6 +2,7 @@ import FgaVerif.Sexp
 import FgaVerif.Model.Ast
 import FgaVerif.Model.Tree
 import FgaVerif.Model.Listener
+import FgaVerif.Model.Merge
 /-! Canonical S-expression encoding of models (shared with the Go harness' `canonModel`). -/
 namespace FgaVerif.Codec
 open FgaVerif FgaVerif.Model
@@ -167,5 +168,15 @@ def encOutcome : Listener.Outcome → Sexp
   | .panic p => encPanic p
   | .errors es => encErrs es
   | .ok m exts => .list [.atom "ok", encModel m, encExts exts]
+
+def encMergeErr : Merge.MergeErr → Sexp
+  | .syn e => .list [.atom "syn", .atom (toString e.line), .atom (toString e.col), .str e.msg]
+  | .mod msg file p => .list [.atom "mod", .str msg, .str file, .atom (toString p.lineStart), .atom (toString p.lineEnd),
+      .atom (toString p.colStart), .atom (toString p.colEnd)]
+
+def encMergeOutcome : Merge.MergeOutcome → Sexp
+  | .panic p => encPanic p
+  | .errors es => .list (.atom "errors" :: es.map encMergeErr)
+  | .ok m => .list [.atom "ok", encModel m]
 
 end FgaVerif.Codec
